@@ -83,7 +83,7 @@ theorem z3Check_cases {E : Env} (hE : OracleExact E) (r : Nat) (asm : List ZCon)
     | (.ok (some (vals, keys)), s') =>
         PartialModelOf (PModel.ofKeys vals keys) ((objAt s r).asserted ++ asm) ∧
         SatBy ((objAt s r).asserted ++ asm) (asgOf vals) ∧ CheckStep r s s'
-    | (.error e, s') => e = .giveUp ∧ CheckStep r s s' := by
+    | (.error e, s') => IsGiveUp E e ∧ CheckStep r s s' := by
   rw [z3Check_eq]
   have hx := hE { asserted := (objAt s r).asserted, assumptions := asm } s.tick
   have step : ∀ core, CheckStep r s
@@ -97,7 +97,7 @@ theorem z3Check_cases {E : Env} (hE : OracleExact E) (r : Nat) (asm : List ZCon)
   cases h : E.oracle { asserted := (objAt s r).asserted, assumptions := asm } s.tick with
   | unknown =>
     simp only [h]
-    refine ⟨by first | rfl | trivial, ⟨⟨rfl, fun _ _ => rfl, rfl, rfl⟩, rfl, rfl⟩⟩
+    refine ⟨⟨rfl, _, _, h⟩, ⟨⟨rfl, fun _ _ => rfl, rfl, rfl⟩, rfl, rfl⟩⟩
   | unsat core =>
     simp only [h] at hx ⊢
     refine ⟨fun a ha => ?_, ?_⟩
